@@ -282,9 +282,7 @@ impl ExternalSort {
     /// Cleans up all spill files.
     pub fn cleanup(&mut self) {
         for file in self.sorted_runs.drain(..) {
-            let bytes = file.bytes_written();
-            let _ = file.delete();
-            self.manager.unregister_spilled_bytes(bytes);
+            let _ = self.manager.delete_file(file);
         }
         self.run_row_counts.clear();
     }
